@@ -213,11 +213,13 @@ func c02Opts(rng *lib.Rand, idx uint64) lib.GenOpts {
 		BigEndian:     50,
 		Unknown:       30,
 		ZeroFieldDefs: 3,
+		RedefSimilar:  30,
 		// some records behind compressed-timestamp headers: a wire field must decode to its wire
 		// value whatever the record header says
 		Compressed: 10,
 		NoTimeZero: true,
 		Monster:    2,
+		TimeModel:  40,
 	}
 	// Draw mostly from what the container hosts, sometimes from everything.
 	if !rng.Chance(1, 5) {
